@@ -8,3 +8,4 @@ STANDIN = "standins/dbdiff.py"
 TRUSTED = TRUSTED_CORE + [STORAGE_ASSUMED, QUERY_ASSUMED,
                           "the Any universe of contracts/any_model.py (isinstance uninterpreted per class name, truthiness and callability of an Any value uninterpreted); a callable update argument is an uninterpreted function of the point whose result is an arbitrary Any value"]
 ASSUMPTIONS = [A_ALIAS, "KF-18: MemoryStorage applies updates in place (aliasing); the proof is relative to the non-aliasing Storage contract"]
+FUNCTIONS = FUNCTIONS + MEM_REFINEMENT  # MemoryStorage refines the abstract Storage contract
